@@ -135,8 +135,9 @@ func rootOf(v ssa.Value, seen map[ssa.Value]bool) (origin, string) {
 		if x.Op == token.MUL {
 			// a pointer / slice / map loaded from memory: we only know its type, and where it was kept
 			o, w := rootOf(x.X, map[ssa.Value]bool{})
-			if o == oShared {
-				return oShared, w
+			if o == oShared || o == oScratch {
+				// kept in a shared error / in the per-call scratch state of the formatter
+				return o, w
 			}
 			bo, bw := byType(x.Type(), "value loaded from memory")
 			if o == oLocal && bo == oUnknown {
@@ -164,7 +165,11 @@ func rootOf(v ssa.Value, seen map[ssa.Value]bool) (origin, string) {
 		// the cell of a variable of the enclosing function
 		return oLocal, ""
 	case *ssa.Call:
-		// result of a call (append, a constructor ...): fresh
+		if b, ok := x.Call.Value.(*ssa.Builtin); ok && b.Name() == "append" && len(x.Call.Args) > 0 {
+			// append may return (and write into) the backing array of its first argument
+			return rootOf(x.Call.Args[0], seen)
+		}
+		// result of another call (a constructor ...): fresh
 		return oLocal, ""
 	case *ssa.Extract, *ssa.TypeAssert, *ssa.Lookup, *ssa.Index, *ssa.BinOp, *ssa.Next, *ssa.Range, *ssa.Field:
 		return byType(v.Type(), "derived value")
@@ -176,10 +181,13 @@ func rootOf(v ssa.Value, seen map[ssa.Value]bool) (origin, string) {
 // the caller.  Each one below was checked by reading every call site in the
 // repository: the argument is created by the caller for that one call.
 var callerOwned = map[string]string{
-	"(*errbase.printer).enhanceArgs:args":     "the variadic slice of one Print/Printf call (no call site passes a stored slice with ...)",
-	"(*errbase.safePrinter).enhanceArgs:args": "the variadic slice of one Print/Printf call",
-	"hintdetail.getAllHintsInternal:seen":     "map created by GetAllHints for one call",
-	"report.reverseExceptionOrder:ex":         "slice built by BuildSentryReport in the same call",
+	"(*errbase.printer).enhanceArgs:args":      "the variadic slice of one Print/Printf call (no call site passes a stored slice with ...)",
+	"(*errbase.safePrinter).enhanceArgs:args":  "the variadic slice of one Print/Printf call",
+	"hintdetail.getAllHintsInternal:seen":      "map created by GetAllHints for one call",
+	"report.reverseExceptionOrder:ex":          "slice built by BuildSentryReport in the same call",
+	"(*errbase.SafeDetailPayload).Fill:slice":  "accumulator: both call sites (barrierErr.SafeDetails, withSecondaryError.SafeDetails) pass a slice declared in the same call",
+	"hintdetail.getAllHintsInternal:hints":     "accumulator created (nil) by GetAllHints for one call and threaded through the recursion",
+	"hintdetail.getAllDetailsInternal:details": "accumulator created (nil) by GetAllDetails for one call and threaded through the recursion",
 }
 
 func owned(f *ssa.Function, why string) bool {
@@ -280,6 +288,15 @@ func main() {
 				case *ssa.Send:
 					effs = append(effs, fmt.Sprintf("ESend %q", pos(x.Pos())))
 				case *ssa.Call:
+					if b, ok := x.Call.Value.(*ssa.Builtin); ok && (b.Name() == "append" || b.Name() == "copy") && len(x.Call.Args) > 0 {
+						// append writes into the spare capacity of its first argument's array, copy into its first argument
+						o, why := rootOf(x.Call.Args[0], map[ssa.Value]bool{})
+						if o == oShared {
+							effs = append(effs, fmt.Sprintf("EStoreShared %q", b.Name()+" into "+why+" at "+pos(x.Pos())))
+						} else if o == oUnknown && !owned(f, why) {
+							effs = append(effs, fmt.Sprintf("ECallUnknown %q", b.Name()+" into "+why+" at "+pos(x.Pos())))
+						}
+					}
 					if c := x.Call.StaticCallee(); c != nil && c.Pkg != nil {
 						pp := c.Pkg.Pkg.Path()
 						if pp == "sync/atomic" || (pp == "sync" && c.Signature.Recv() != nil) {
